@@ -26,6 +26,7 @@ type redirect struct {
 	fromPath string          // import path in the file
 	toPath   string          // model package
 	sels     map[string]bool // nil = every selector
+	onlyFile string          // restrict to one file (relative path suffix)
 }
 
 var redirects = []redirect{
@@ -35,6 +36,7 @@ var redirects = []redirect{
 		"NewTimer": true, "Sleep": true, "After": true, "Until": true, "Tick": true}},
 	{fromPath: "crypto/rand", toPath: envBase + "vrand"},
 	{fromPath: "net/http", toPath: envBase + "vhttp", sels: map[string]bool{"ServeContent": true}},
+	{fromPath: "github.com/olareg/olareg", toPath: envBase + "vhook", sels: map[string]bool{"New": true}, onlyFile: "cmd/olareg/serve.go"},
 }
 
 // files of /repo (relative) whose environment is redirected
@@ -42,6 +44,7 @@ var redirectedFiles = []string{
 	"olareg.go", "blob.go", "manifest.go", "referrer.go", "tag.go",
 	"internal/store/store.go", "internal/store/dir.go", "internal/store/mem.go",
 	"internal/cache/cache.go",
+	"cmd/olareg/serve.go",
 }
 
 // rewriteFile returns the redirected source of path, and the list of replaced selectors.
@@ -59,6 +62,12 @@ func rewriteFile(path string) ([]byte, []string, error) {
 			r := &redirects[k]
 			if r.fromPath != p {
 				continue
+			}
+			if r.onlyFile != "" && !strings.HasSuffix(path, r.onlyFile) {
+				continue
+			}
+			if r.onlyFile == "" && strings.Contains(path, "/cmd/") {
+				continue // the command package keeps its real environment
 			}
 			name := filepath.Base(p)
 			if imp.Name != nil {
